@@ -228,6 +228,11 @@ def one_run(spec, device, fault, answer=None, line_fault=None):
                 mech = "cancel_before_first_frame_raises"
             viol("cancellation_raised", mech, {"raised": repr(raised)[:200], "completed_saves": saves_done, "stage": stage_of_fault})
         else:
+            if stage_of_fault == "Thermalizing" and not resumed:
+                # documented: cancelling during thermalisation ends the run (solve returns None); nothing may be simulated after it
+                later = [st["name"] for st in tm.stages if st["name"] == "Simulating"]
+                if result is not None or later:
+                    viol("cancellation_in_thermalisation_ignored", "cancellation_ignored", {"returned": type(result).__name__, "stages_run": [st["name"] for st in tm.stages]})
             if result is None:
                 saves_done = sum(1 for st in tm.stages for s in st["saves"] if s["completed"])
                 if not resumed and stage_of_fault != "Thermalizing" and saves_done > 0:
